@@ -55,7 +55,7 @@ impl Set {
             for st in &bounds {
                 for en in &bounds {
                     for sp in &steps {
-                        for context in [0u8, 1, 2, 3, 6, 7, 8] {
+                        for context in [0u8, 1, 2, 3, 6, 7, 8, 9, 10] {
                             cases.push(Case { len, sel: Selector::Slice(*st, *en, *sp), context, family: "slice-cube" });
                         }
                     }
@@ -137,7 +137,7 @@ impl Set {
             }
         }
         // results beyond a million nodes
-        for k in 0..SCALE.len() {
+        for k in 0..SCALE.len() + RAGGED.len() {
             cases.push(Case { len: k, sel: Selector::Wildcard, context: 0, family: "scale" });
         }
         Set { cases, armed, unions: unions.into_iter().collect() }
@@ -185,6 +185,14 @@ impl Set {
                     J::Arr(vec![arr.clone(), J::Arr(vec![J::int(k), J::int(5)]), arr]),
                 )
             }
+            9 => (
+                Query::root(vec![Segment::child(Selector::Name("caf\u{e9}".into())), Segment::child(Selector::Name("\u{65e5}\u{672c}".into())), Segment::child(sel)]),
+                J::Obj(vec![("caf\u{e9}".into(), J::Obj(vec![("\u{65e5}\u{672c}".into(), arr)]))]),
+            ),
+            10 => (
+                Query::root(vec![Segment::child(Selector::Wildcard), Segment::child(Selector::Wildcard), Segment::child(sel)]),
+                J::Arr(vec![J::Obj(vec![("\u{1f600}".into(), arr.clone()), ("it's".into(), arr)])]),
+            ),
             6 | 7 | 8 => {
                 // the slice inside an existence test, followed by a further segment that only
                 // some elements of the window satisfy (never the first one only)
@@ -230,7 +238,59 @@ const SCALE: [(usize, usize, &str); 12] = [
     (2, 1_048_577, "[:]"),
 ];
 
+/// long node lists of rows that are almost all of one length (the first, middle and last ones
+/// in particular) with a few rows of other lengths in between: (rows, usual width, segment)
+const RAGGED: [(usize, usize, &str); 10] = [(301, 3, "[-2:]"), (301, 3, "[::-1]"), (301, 3, "[1:]"), (301, 3, "[:-1]"), (1000, 4, "[5:]"), (257, 2, "[-1]"), (256, 3, "[-3::2]"), (4097, 3, "[-2:]"), (300, 1, "[:]"), (600, 8, "[-9:-1:3]")];
+
+fn run_ragged(k: usize, acc: &mut Acc) -> Vec<(String, Value)> {
+    let (rows, width, seg) = RAGGED[k];
+    let text = format!("$[*]{}", seg);
+    let describe = || json!({"kind":"scale","query": text, "rows": rows, "usual_width": width, "ragged": true});
+    let sel = match analyze(&text).ast {
+        Some(q) => q.segments[1].selectors[0].clone(),
+        None => return vec![(format!("ragged query does not parse: {}", text), describe())],
+    };
+    // rows of other lengths at a few interior positions (never first, middle or last)
+    let odd: Vec<(usize, usize)> = vec![(1, width + 2), (rows / 3, 0), (rows / 2 + 1, 1), (rows - 2, width + 7), (rows / 5, width * 3)];
+    let len_of = |r: usize| odd.iter().find(|(p, _)| *p == r).map(|(_, l)| *l).unwrap_or(width);
+    let doc = Value::Array((0..rows).map(|r| Value::Array((0..len_of(r)).map(|c| json!(r * 100 + c)).collect())).collect());
+    let mut want: Vec<(usize, usize)> = vec![];
+    for r in 0..rows {
+        let l = len_of(r);
+        match &sel {
+            Selector::Index(i) => {
+                let j = if *i >= 0 { *i } else { l as i64 + *i };
+                if j >= 0 && (j as usize) < l {
+                    want.push((r, j as usize));
+                }
+            }
+            Selector::Slice(a, b, c) => want.extend(oracle::eval::slice_indices(l, *a, *b, *c).into_iter().map(|c| (r, c))),
+            _ => {}
+        }
+    }
+    let mut out = vec![];
+    match libapi::query_with_path(&text, &doc) {
+        LibOutcome::Ok(ns) => {
+            let got: Vec<String> = ns.iter().map(|n| n.1.clone()).collect();
+            let wantp: Vec<String> = want.iter().map(|(r, c)| format!("$[{}][{}]", r, c)).collect();
+            let addr_ok = ns.len() == want.len() && ns.iter().zip(want.iter()).all(|(n, (r, c))| n.0 == libapi::addr(&doc[*r][*c]));
+            if got != wantp || !addr_ok {
+                let first_bad = got.iter().zip(wantp.iter()).position(|(a, b)| a != b).unwrap_or(got.len().min(wantp.len()));
+                out.push((format!("{} over {} rows (usual length {}, a few rows of other lengths): {} nodes, RFC 9535 gives {}; first difference at result {}: {:?} instead of {:?}", text, rows, width, got.len(), wantp.len(), first_bad, got.get(first_bad), wantp.get(first_bad)), describe()));
+            } else {
+                acc.count("held_ragged", 1);
+                acc.nontrivial(format!("ragged:{}", text).as_bytes());
+            }
+        }
+        o => out.push((format!("{} over {} ragged rows: {}", text, rows, o.brief()), describe())),
+    }
+    out
+}
+
 fn run_scale(k: usize, acc: &mut Acc) -> Vec<(String, Value)> {
+    if k >= SCALE.len() {
+        return run_ragged(k - SCALE.len(), acc);
+    }
     let (rows, width, seg) = SCALE[k];
     let text = format!("$[*]{}", seg);
     let describe = || json!({"kind":"scale","query": text, "rows": rows, "width": width});
@@ -296,6 +356,10 @@ impl CaseSet for Set {
     }
     fn describe(&self, idx: usize) -> Value {
         let c = &self.cases[idx];
+        if c.family == "scale" && c.len >= SCALE.len() {
+            let (rows, width, seg) = RAGGED[c.len - SCALE.len()];
+            return json!({"kind": "scale", "query": format!("$[*]{}", seg), "rows": rows, "usual_width": width, "family": "scale-ragged"});
+        }
         if c.family == "scale" {
             let (rows, width, seg) = SCALE[c.len];
             return json!({"kind": "scale", "query": format!("$[*]{}", seg), "rows": rows, "width": width, "family": "scale"});
@@ -316,7 +380,7 @@ impl CaseSet for Set {
         let mut out = vec![];
         acc.evaluations += 1;
         acc.count(&format!("family_{}", c.family), 1);
-        acc.count(&format!("context_{}", ["root", "under-name", "under-descendant", "in-filter-query", "singular-index-eq-first", "singular-index-eq-last", "in-filter-query-then-name", "in-filter-query-then-index", "in-filter-query-then-filter"][c.context as usize]), 1);
+        acc.count(&format!("context_{}", ["root", "under-name", "under-descendant", "in-filter-query", "singular-index-eq-first", "singular-index-eq-last", "in-filter-query-then-name", "in-filter-query-then-index", "in-filter-query-then-filter", "under-non-ascii-names", "under-wildcards-over-astral-and-quoted-names"][c.context as usize]), 1);
         // route 1: through the parser
         let parsed = analyze(&text);
         let j = judge_query(&text, &parsed, &doc, NODES | ORDER | PATHS, &self.armed);
